@@ -137,6 +137,7 @@ const (
 	tokSUB = token.SUB
 	tokAND = token.AND
 	tokREM = token.REM
+	tokMUL = token.MUL
 )
 
 // simpleHooks keeps selected module functions as opaque calls (pure: no
